@@ -18,9 +18,14 @@
         reference; with any relaxations on it contains the reference (same definition list);
      C05_accept_iff_partial : outside the decidable class rgl_known_document (the relaxed grammar accepts, the reference
         does not) the parser reports no error <-> the reference grammar accepts;
+     C05_known_class_is_rootop, C05_parser_is_rootop_grammar : since four of the five leniencies were repaired in /repo
+        that class is exactly ONE leniency (`OperationType : NamedType?`, known finding root_operation_without_type);
+        the other relaxation left in the parser's grammar (a list value ending at the end of the token list) never
+        shows in a whole document (Parse/RefLenientEof.v);
      C05_reference_is_accepted : the parser never reports an error on a document of the grammar (no exception);
      C05_lexical_error_reported : a lexical error is always reported;
-     C05_accept_iff_refuted : the five known findings are inside the class, with their witnesses on the model.
+     C05_accept_iff_refuted : the remaining known finding is inside the class, with its witness on the model;
+     C05_repaired_witnesses : the witnesses of the four repaired findings are now reported by the model.
    `_partial` because (a) the converse directions assume a recursion limit above the number of `{`, `[`, `:` tokens
    (a crude bound on the nesting depth; with a smaller limit the parser may report a recursion-limit error on a
    grammatical document) and no token limit; (b) of C05_definitions_agree (the (kind, name) list of
@@ -33,7 +38,7 @@
 From ApolloVerif Require Import Base.Chars Lex.Item Lex.Fun Parse.RefGrammar Parse.RefLib Parse.RefSpec
   Parse.RefSpecTS Parse.RefProofsValue Parse.RefProofsExec Parse.RefProofsTS
   Parse.Outcome Parse.Entry Parse.RefLenient Parse.RefLenientProofs Parse.RefLinkBase Parse.RefLinkKinds
-  Parse.RefLinkTop.
+  Parse.RefLenientEof Parse.RefLinkTop.
 
 (* ---- fuel = token count suffices ---- *)
 Theorem C05_rg_fuel_enough : forall ts, rg_document_r rg_definition ts <> RgOut.
@@ -217,7 +222,9 @@ Proof. exact rgl_sub_document. Qed.
 Check C05_reference_in_relaxed : forall L ts ds, rg_document ts = Some ds -> rgl_document L ts = Some ds.
 Print Assumptions C05_reference_in_relaxed.
 
-(* the property, outside the decidable class of the known leniencies *)
+(* the property, outside the decidable class of the known leniency.  Since four of the five leniencies were repaired
+   in /repo, rgl_parser has two relaxations left: a root operation type definition without its named type (the
+   remaining known finding) and a list value ending at the end of the token list (never visible in a document) *)
 Theorem C05_accept_iff_partial : forall dbg rl s r ts,
   parse_document_items dbg rl (lex_all s) = POk r ->
   rg_significant (lex_all s) = Some ts -> rgl_known_document ts = false -> rl_weight ts < rl ->
@@ -228,6 +235,27 @@ Check C05_accept_iff_partial : forall dbg rl s r ts,
   rg_significant (lex_all s) = Some ts -> rgl_known_document ts = false -> rl_weight ts < rl ->
   (pr_errors r = [] <-> exists ds, rg_document ts = Some ds).
 Print Assumptions C05_accept_iff_partial.
+
+(* the excluded class is exactly that ONE leniency: a token list in the class is a Document of the grammar whose only
+   relaxation is `OperationType : NamedType?` (rgl_rootop_only), and not of the reference grammar.  The end-of-list
+   relaxation never shows in a whole document, every value sits inside brackets that must still be closed
+   (Parse/RefLenientEof.v) *)
+Theorem C05_known_class_is_rootop : forall ts, rgl_known_document ts = true ->
+  (exists ds, rgl_document rgl_rootop_only ts = Some ds) /\ rg_document ts = None.
+Proof. exact rgl_known_document_is_rootop. Qed.
+Check C05_known_class_is_rootop : forall ts, rgl_known_document ts = true ->
+  (exists ds, rgl_document rgl_rootop_only ts = Some ds) /\ rg_document ts = None.
+Print Assumptions C05_known_class_is_rootop.
+
+(* no error -> no lexical error and a Document of that one-relaxation grammar (no bound on the recursion limit) *)
+Theorem C05_parser_is_rootop_grammar : forall dbg rl s r,
+  parse_document_items dbg rl (lex_all s) = POk r -> pr_errors r = [] ->
+  exists ts ds, rg_significant (lex_all s) = Some ts /\ rgl_document rgl_rootop_only ts = Some ds.
+Proof. exact rl_document_exact_rootop_only. Qed.
+Check C05_parser_is_rootop_grammar : forall dbg rl s r,
+  parse_document_items dbg rl (lex_all s) = POk r -> pr_errors r = [] ->
+  exists ts ds, rg_significant (lex_all s) = Some ts /\ rgl_document rgl_rootop_only ts = Some ds.
+Print Assumptions C05_parser_is_rootop_grammar.
 
 (* one direction needs no exception: the parser accepts every document of the grammar *)
 Theorem C05_reference_is_accepted : forall dbg rl s r ts ds,
@@ -246,18 +274,24 @@ Check C05_lexical_error_reported : forall dbg rl s r,
   parse_document_items dbg rl (lex_all s) = POk r -> rg_significant (lex_all s) = None -> pr_errors r <> [].
 Print Assumptions C05_lexical_error_reported.
 
-(* the unrestricted statement is false of the code: the five known findings, each with its witness
+(* the unrestricted statement is false of the code: the remaining known finding with its witness `schema { query: }`
    (rl_known_witness src: the model parses src with 0 errors, the reference rejects its tokens, they are in the class) *)
-Theorem C05_accept_iff_refuted :
-  rl_known_witness rl_w_argument_without_value /\ rl_known_witness rl_w_object_field_without_value /\
-  rl_known_witness rl_w_root_operation_without_type /\ rl_known_witness rl_w_description_before_fragment /\
-  rl_known_witness rl_w_schema_extension_empty_block.
+Theorem C05_accept_iff_refuted : rl_known_witness rl_w_root_operation_without_type.
 Proof. exact rl_document_refuted. Qed.
-Check C05_accept_iff_refuted :
-  rl_known_witness rl_w_argument_without_value /\ rl_known_witness rl_w_object_field_without_value /\
-  rl_known_witness rl_w_root_operation_without_type /\ rl_known_witness rl_w_description_before_fragment /\
-  rl_known_witness rl_w_schema_extension_empty_block.
+Check C05_accept_iff_refuted : rl_known_witness rl_w_root_operation_without_type.
 Print Assumptions C05_accept_iff_refuted.
+
+(* the four repaired findings (fix: commits in /repo, model updated): each former witness of C05_accept_iff_refuted is
+   now reported by the model, rejected by the reference, OUTSIDE the class rgl_known_document, and was accepted by the
+   relaxed grammar of before the repairs (rgl_parser_old, every relaxation on) *)
+Theorem C05_repaired_witnesses :
+  rl_repaired_witness rl_w_argument_without_value /\ rl_repaired_witness rl_w_object_field_without_value /\
+  rl_repaired_witness rl_w_description_before_fragment /\ rl_repaired_witness rl_w_schema_extension_empty_block.
+Proof. exact rl_document_repaired. Qed.
+Check C05_repaired_witnesses :
+  rl_repaired_witness rl_w_argument_without_value /\ rl_repaired_witness rl_w_object_field_without_value /\
+  rl_repaired_witness rl_w_description_before_fragment /\ rl_repaired_witness rl_w_schema_extension_empty_block.
+Print Assumptions C05_repaired_witnesses.
 
 (* the definition list, at the level of the grammars only: when the reference accepts, the relaxed grammar (the
    parser's acceptance) returns the same (kind, name) list.  NOT proved: that this list is the one read off the
@@ -283,7 +317,7 @@ Check C05_definition_kinds_agree_partial : forall dbg rl s r ts ds,
   p_tree_def_kinds (pr_tree r) = map fst ds.
 Print Assumptions C05_definition_kinds_agree_partial.
 
-(* ... also inside the known class, against the relaxed grammar (e.g. `"d" fragment on T {a}` is a Fragment node) *)
+(* ... also inside the class rgl_known_document, against the relaxed grammar *)
 Theorem C05_definition_kinds_relaxed : forall dbg rl s r ts ds,
   parse_document_items dbg rl (lex_all s) = POk r -> pr_errors r = [] ->
   rg_significant (lex_all s) = Some ts -> rgl_document rgl_parser ts = Some ds ->
